@@ -28,6 +28,10 @@ pub enum Gz {
     Flate(u32),
     /// stored blocks of at most `block` bytes; header options
     Stored { block: u16, fname: bool, fcomment: bool, fextra: bool, fhcrc: bool },
+    /// several gzip members one after the other (RFC 1952 2.2: "a gzip file consists of a series of members";
+    /// what `cat a.gz b.gz`, bgzip and parallel compressors write): the text is cut at these per-mille positions,
+    /// member k is flate2 at `level` when k is even, stored blocks otherwise
+    Multi { cuts: Vec<u16>, level: u32 },
 }
 
 pub fn stored(data: &[u8], block: u16, fname: bool, fcomment: bool, fextra: bool, fhcrc: bool) -> Vec<u8> {
@@ -77,5 +81,22 @@ pub fn pack(gz: &Gz, text: &[u8]) -> Vec<u8> {
             e.finish().unwrap()
         }
         Gz::Stored { block, fname, fcomment, fextra, fhcrc } => stored(text, *block, *fname, *fcomment, *fextra, *fhcrc),
+        Gz::Multi { cuts, level } => {
+            let mut pos: Vec<usize> = cuts.iter().map(|c| text.len() * (*c as usize).min(1000) / 1000).collect();
+            pos.sort();
+            pos.push(text.len());
+            let mut out = vec![];
+            let mut from = 0;
+            for (k, to) in pos.into_iter().enumerate() {
+                let part = &text[from..to];
+                from = to;
+                if k % 2 == 0 {
+                    out.extend(pack(&Gz::Flate(*level), part));
+                } else {
+                    out.extend(stored(part, 500, k % 4 == 1, false, false, false));
+                }
+            }
+            out
+        }
     }
 }
